@@ -257,8 +257,10 @@ def run(ctx):
                                                      or zero_count_bitmap(di)):
             good.append((c, di))
         ctx.sample({'ids': c['ids'], 'cache_max': k_cache}, limit=3)
-    # save / load
-    for c, di in good[:ctx.n(40, 1500)]:
+    # save / load: templates with marker operators first (their recorded state_properties travel through the JSON)
+    marker_first = sorted(good, key=lambda x: 0 if any(k.startswith('marker-under') for k in x[0]['features']) else
+                          1 if any(i in MARKERS for i in x[0]['ids']) else 2)
+    for c, di in marker_first[:ctx.n(60, 1500)]:
         save_load_case(ctx, c, di)
     # cache sizes x orders: one coder object, many messages
     from pybufrkit.decoder import Decoder
